@@ -171,6 +171,30 @@ def run(case):
                 break
             if p2:
                 add("node_constraint", use0, {ckey: [list(p2)]}, {ckey: [[[p2[0] + "|in", p2[0] + "|out"], [p2[1] + "|in", p2[1] + "|out"]]]})
+                if not cyc:
+                    # node lengths + length coverage: in the expansion the node arcs carry the node lengths, the connecting arcs length 0
+                    nl = {v: 1 + 3 * (i % 2) for i, v in enumerate(V)}
+                    for covl in (0.5, 0.8):
+                        add(f"node_constraint,coverage_length={covl}", dict(use0, node_lengths=nl),
+                            {ckey: [list(p2)], "subpath_constraints_coverage_length": covl, "length_attr": "length"},
+                            {ckey: [[[p2[0] + "|in", p2[0] + "|out"], [p2[0] + "|out", p2[1] + "|in"], [p2[1] + "|in", p2[1] + "|out"]]],
+                             "subpath_constraints_coverage_length": covl, "length_attr": "length", "_node_lengths": nl})
+                    # unit node lengths, a two-arc constraint a->b->c given in edge form, its middle node ignored
+                    n1 = {v: 1 for v in V}
+                    two = [(a_, b_, c_) for (a_, b_) in A for (b2_, c_) in A if b2_ == b_ and c_ != a_][:1]
+                    for (a_, b_, c_) in two:
+                        def x_(v_, s_):
+                            return v_ + "|" + s_
+                        add(f"edge_constraint2,coverage_length=0.6,ignored:{b_}", dict(use0, node_lengths=n1),
+                            {ckey: [[[a_, b_], [b_, c_]]], "subpath_constraints_coverage_length": 0.6, "length_attr": "length", "elements_to_ignore": [b_]},
+                            {ckey: [[[x_(a_, "in"), x_(a_, "out")], [x_(a_, "out"), x_(b_, "in")], [x_(b_, "in"), x_(b_, "out")], [x_(b_, "out"), x_(c_, "in")], [x_(c_, "in"), x_(c_, "out")]]],
+                             "subpath_constraints_coverage_length": 0.6, "length_attr": "length", "_node_lengths": n1,
+                             "elements_to_ignore": [[x_(b_, "in"), x_(b_, "out")]]})
+                    add(f"edge_constraint,coverage_length=0.6,ignored:{p2[1]}", dict(use0, node_lengths=n1),
+                        {ckey: [[[p2[0], p2[1]]]], "subpath_constraints_coverage_length": 0.6, "length_attr": "length", "elements_to_ignore": [p2[1]]},
+                        {ckey: [[[p2[0] + "|in", p2[0] + "|out"], [p2[0] + "|out", p2[1] + "|in"], [p2[1] + "|in", p2[1] + "|out"]]],
+                         "subpath_constraints_coverage_length": 0.6, "length_attr": "length", "_node_lengths": n1,
+                         "elements_to_ignore": [[p2[1] + "|in", p2[1] + "|out"]]})
                 add("edge_constraint", use0, {ckey: [[[p2[0], p2[1]]]]},
                     {ckey: [[[p2[0] + "|in", p2[0] + "|out"], [p2[0] + "|out", p2[1] + "|in"], [p2[1] + "|in", p2[1] + "|out"]]]})
         # MinFlowDecomp takes additional starts / ends in node mode only: its explicit expansion gets a global source S* (sink T*)
@@ -230,6 +254,10 @@ def run(case):
             EE = EE + [["T*|in", "T*|out", None]] + [[x, "T*|in", None] for x in ekw_extra["_global_ends"]]
             orig_arcs_exp += [["T*|in", "T*|out"]] + [[x, "T*|in"] for x in ekw_extra["_global_ends"]]
         einst = {"fam": ninst["fam"], "nodes": EV, "arcs": EE}
+        if ekw_extra.get("_node_lengths"):
+            einst["lengths"] = {f"{a[0]}|{a[1]}": 0 for a in EE}
+            for v_, l_ in ekw_extra["_node_lengths"].items():
+                einst["lengths"][f"{v_}|in|{v_}|out"] = l_
         absent_nodes = [[v + "|in", v + "|out"] for v in ninst["nodes"] if ninst["node_w"].get(v) is None]
         # k for k-models: covering number of the weighted, non-ignored nodes (error / cover models), decomposition optimum for FD
         ign_nodes = set(nkw.get("elements_to_ignore", [])) | {v for v in ninst["nodes"] if ninst["node_w"].get(v) is None}
@@ -257,7 +285,7 @@ def run(case):
             ekw = dict(kw0)
             ekw["elements_to_ignore"] = orig_arcs_exp + absent_nodes + list(ekw_extra.get("elements_to_ignore", []))
             for k_, v_ in ekw_extra.items():
-                if k_ != "elements_to_ignore" and not k_.startswith("_global"):
+                if k_ != "elements_to_ignore" and not k_.startswith("_global") and not k_.startswith("_node_lengths"):
                     ekw[k_] = v_
             if cls == "MinErrorFlow":
                 on = _observe_mef(ninst, nkw_full)
